@@ -36,22 +36,18 @@ meta['confirmed'] = (rc0 == 0 and rc1 != 0 and suite_ok)
 print(f"{ID}: demo pristine exit={rc0}, suite with change ok={suite_ok}, demo with change exit={rc1} -> confirmed={meta['confirmed']}")
 if not meta['confirmed']:
     print(o0[-600:], os_[-600:], o1[-600:])
-# 2. our checks against it (apply to /repo, run, restore exactly the touched files)
-rc, o = sh('git -C /repo apply ' + patch)
+# 2. our checks against it: the driver is pointed at the scratch worktree (patch applied there); /repo is not touched
+rc, o = sh('git apply --check -R _seed/patch.diff', WT)
 if rc != 0:
-    print("patch does not apply to /repo:", o); meta['applies_to_repo'] = False
-else:
-    try:
-        meta['checks'] = {}
-        for c in checks:
-            t = time.time()
-            rc, o = sh(f'/verif/bin/verif check {c} --tier quick')
-            keys = re.findall(r'^  key=(\S+)', o, re.M)
-            meta['checks'][c] = {'exit': rc, 'violation_keys': keys, 'wall_s': round(time.time() - t, 1)}
-            print(f"  {c}: exit={rc} keys={keys[:6]}")
-            if rc not in (0, 1): print(o[-1500:])
-    finally:
-        sh('git -C /repo checkout -- ' + ' '.join(files))
+    sh('git apply _seed/patch.diff', WT)
+meta['checks'] = {}
+for c in checks:
+    t = time.time()
+    rc, o = sh(f'VERIF_REPO={WT} /verif/bin/verif check {c} --tier quick')
+    keys = re.findall(r'^  key=(\S+)', o, re.M)
+    meta['checks'][c] = {'exit': rc, 'violation_keys': keys, 'wall_s': round(time.time() - t, 1)}
+    print(f"  {c}: exit={rc} keys={keys[:6]}")
+    if rc not in (0, 1): print(o[-1500:])
 meta['detected_by'] = [c for c, v in meta.get('checks', {}).items() if v['exit'] == 1]
 json.dump(meta, open(os.path.join(OUT, 'meta.json'), 'w'), indent=1)
 st = subprocess.run('git -C /repo status --short', shell=True, capture_output=True, text=True).stdout
